@@ -32,9 +32,9 @@ streams (`stream` of a case; every stream is present for every seed)
               49, 65, 100, 130, 200) while the rest stays small: loop nesting depth, block nesting depth ({ < { < ...), gate-loop
               nesting depth, macro chain length (parameters swapped at random levels), alias chain length (with slices), number of
               lets / map aliases / macros in the header, statements in one subcircuit, subcircuits in one program (drawn from a
-              pool of 3-4 gate sequences, so most are IDENTICAL), iterations of a loop around subcircuits, iterations of a gate
+              pool of 2-4, 9, 17 or size/3 gate sequences, so many are IDENTICAL), iterations of a loop around subcircuits, iterations of a gate
               loop, length of every name (8..1000 characters)
-    dup       3..9 subcircuits of which several consist of the SAME gates: textually identical, identical only after expansion
+    dup       3..9 subcircuits (a quarter: 14..24 drawn from 9..12 distinct gate sequences) of which several consist of the SAME gates: textually identical, identical only after expansion
               (one through a macro, one through an alias, one through a let), before / inside / after loops (counts 0..3), one
               block macro `prepare_all ... measure_all` called at two places, `subcircuit` blocks
     ident     small programs whose register, lets, aliases, macros, macro parameters and GATES have unusual legal spellings:
@@ -70,7 +70,10 @@ oracles (real code alone; "corr" is empty).  key(k, n) = the n characters "01"[(
 A case is a JSON object {"stream", "dim", "size", "n", "text", "expect": {"subs", "order"}, "calls": [...], "oseed", "npseed"};
 `replay(case)` needs nothing else.
 
-`n` scales the work (see `_budget`).  Recommended n: 300 quick (about 8 s), 3000 thorough (about 1.5 min).
+`n` scales the work (see `_budget`; the scale grid -- every dimension x every threshold -- is run once in the quick tier whatever n;
+alias chains stop at 66 links in the quick tier, 130 in the thorough one: the library resolves them in cubic time).
+Recommended n: 300 quick (291 cases, about 9 s; 10-25 s were seen at load 25 on 16 cores), 2000 thorough (1500 cases, about 40 s;
+3000: 2400 cases, 65-85 s, up to 3.5 min under the same load).
 
 CLI:    PYTHONPATH=/verif /venv/bin/python /verif/harness/agents/c15_scale.py [--seed S] [--n N] [--thorough]
 Module: harness.agents.c15_scale.run(seed, n, driver, thorough) -> dict ; replay(case, driver) -> dict
@@ -142,9 +145,10 @@ _PULSE_DIR = []
 def pulse_dir():
     """A directory holding the module `c15s_pulses` (jaqal_gates.ALL_GATES = extended_gates()) for relative usepulses imports."""
     if not _PULSE_DIR:
-        import tempfile
+        import tempfile, atexit, shutil
 
         d = tempfile.mkdtemp(prefix="c15_scale_")
+        atexit.register(shutil.rmtree, d, True)
         with open(os.path.join(d, PULSE_MODULE + ".py"), "w") as f:
             f.write("import sys\nsys.path.insert(0, %r) if %r not in sys.path else None\nfrom harness.agents.c15_scale import extended_gates\n\n\nclass jaqal_gates:\n    ALL_GATES = extended_gates()\n" % (_ROOT, _ROOT))
         _PULSE_DIR.append(d)
@@ -595,7 +599,7 @@ DIM_MAX = {
 def pick_size(rng, dim, t):
     """A size just at / beyond threshold t (or one of the in-between sizes the seeds mention)."""
     cap = DIM_MAX[dim]
-    s = t + rng.choice([0, 1, 1, 1, 2, -1])
+    s = t + rng.choice([1, 1, 1, 2, 3, 0])  # mostly just BEYOND the threshold: `>= t` and `> t` cut-offs both apply
     if rng.random() < 0.25:
         near = [x for x in SIZES if t <= x < 2 * t]
         s = rng.choice(near) if near else s
@@ -608,7 +612,7 @@ def gen_regsize(rng, n, heavy):
         pb.alias("al", pb.reg, None)
     if n >= 4 and rng.random() < 0.3:
         pb.alias("ev", pb.reg, ["s", 0, n, 2])
-    nsub = rng.choice([1, 1, 2, 3]) if not heavy else rng.choice([1, 2])
+    nsub = rng.choice([1, 1, 2, 3]) if not heavy else 1  # the emulator is a Python loop over 2^n rows per gate
     for _ in range(nsub):
         while True:
             k = rng.randint(1, min(n, 5))
@@ -617,7 +621,7 @@ def gen_regsize(rng, n, heavy):
             if mirror(base, n) != base:
                 break
         gs = [pb.flip(i) for i in fl]
-        extra = pb.rand_gates(3 if n >= 13 else 5, kinds=("diag", "sym2", "sym2", "sxpair", "hhpair", "flip", "gloop"))
+        extra = pb.rand_gates(2 if n >= 13 else 5, kinds=("diag", "sym2", "sym2", "sxpair", "hhpair", "flip", "gloop"))
         pos = rng.randint(0, len(gs))
         gs = gs[:pos] + extra + gs[pos:]
         if rng.random() < 0.4:
@@ -731,7 +735,8 @@ def gen_scale(rng, dim, size):
         body.append(_sub(gs[:size] + pb.rand_gates(0, lone_sx=rng.choice([0, 1]))))
         body.append(_sub(small()))
     elif dim == "subs":
-        pool = [pb.rand_gates(2, kinds=("flip", "flip", "diag", "sym2"), ming=1) for _ in range(rng.choice([2, 3, 4]))]
+        # mostly a few gate sequences repeated many times; sometimes many distinct ones AND repetitions among them
+        pool = [pb.rand_gates(3, kinds=("flip", "flip", "diag", "sym2"), ming=1) for _ in range(rng.choice([2, 3, 4, 9, 17, max(2, size // 3)]))]
         styles = ["pm"] if rng.random() < 0.5 else ["pm", "pm", "sc"]
         for i in range(size):
             body.append(_sub(rng.choice(pool) if rng.random() < 0.9 else [], rng.choice(styles)))
@@ -781,7 +786,8 @@ def gen_dup(rng):
     al = pb.alias("al", pb.reg, None, use=False)
     lets = [pb.let("c", v) for v in range(min(n, 2))]
     pool = []
-    for _ in range(rng.choice([1, 2, 2, 3])):
+    big = rng.random() < 0.25  # many distinct gate sequences and repetitions among them
+    for _ in range(rng.choice([1, 2, 2, 3]) if not big else rng.randint(9, 12)):
         pool.append(pb.rand_gates(3, kinds=("flip", "flip", "diag", "sym2", "sxpair", "gloop"), ming=1, lone_sx=rng.choice([0, 0, 1])))
     blk = None
     if rng.random() < 0.5:
@@ -822,7 +828,7 @@ def gen_dup(rng):
         return _sub(gs, rng.choice(["pm", "pm", "sc"]), rng.choice([None, None, None, 1]))
 
     items = []
-    for _ in range(rng.randint(3, 9)):
+    for _ in range(rng.randint(3, 9) if not big else rng.randint(14, 24)):
         r = rng.random()
         if r < 0.3:
             items.append(["loop", rng.choice([0, 1, 2, 3, 3]), [one() for _ in range(rng.randint(1, 2))]])
@@ -910,13 +916,13 @@ def make_calls(rng, n, stream, i, heavy=False):
     else:
         entry = rng.choice(ENTRIES)
         forms = rand_forms(rng, n, 1 if heavy else rng.choice([2, 3]))
-        popts = rand_popts(rng, plain=rng.random() < 0.4)
+        popts = rand_popts(rng, plain=heavy or rng.random() < 0.4)
     e = {"kind": "emu", "entry": entry, "popts": popts}
     if entry in ("run_string", "run_file"):
         e["popts"] = {"gates": rng.choice(["autoload", "autoload_twice"])}
     calls.append(e)
     cont = rng.choice(["list", "list", "tuple", "ndarray"])
-    calls.append({"kind": "parse", "popts": rand_popts(rng, plain=rng.random() < 0.4), "forms": forms, "container": cont})
+    calls.append({"kind": "parse", "popts": rand_popts(rng, plain=heavy or rng.random() < 0.4), "forms": forms, "container": cont})
     return calls
 
 
@@ -1132,6 +1138,11 @@ def run_case(case):
         except Hang:
             T.saw_hang()
             fails.setdefault("scale_call_returns", f"{what}: no result within the time limit")
+        except RecursionError:
+            # the passes and walkers recurse over the nesting of blocks; run_jaqal_circuit / parse_jaqal_output_list turn this into
+            # JaqalError("Program is nested too deeply"), the bare passes and backends used by the job path do not: a rejection
+            bump("rejected:RecursionError")
+            return "rejected", "RecursionError"
         except JaqalError as e:
             import re
 
@@ -1165,6 +1176,9 @@ def run_case(case):
 
     def circuit(popts):
         """parse_jaqal_string with the options of the call -> ("ok", circuit) | ("rejected" | "fail", ...)"""
+        ck = json.dumps(popts, sort_keys=True)
+        if ck in circ_cache:  # two calls with the same options share ONE circuit object
+            return "ok", circ_cache[ck]
         src = popts.get("gates", "inject")
         kw = {k: popts[k] for k in ("expand_macro", "expand_let", "expand_let_map", "return_usepulses") if k in popts}
         if "override_dict" in popts:
@@ -1183,7 +1197,11 @@ def run_case(case):
         stt, c = guarded(f"parse_jaqal_string({', '.join(sorted(kw))})", L["parse_jaqal_string"], t, **kw)
         if stt == "ok" and kw.get("return_usepulses"):
             c = c[0]
+        if stt == "ok":
+            circ_cache[ck] = c
         return stt, c
+
+    circ_cache = {}
 
     old = signal.signal(signal.SIGALRM, _alarm)
     st = np.random.get_state()
@@ -1275,14 +1293,14 @@ def run_case(case):
 def _budget(n, thorough):
     return {
         "regsize": max(8, n // 40) if not thorough else max(21, n // 75),
-        "scale_reps": max(1, n // 300) if not thorough else max(2, n // 500),
-        "dup": max(10, n // 6),
+        "scale_reps": max(1, n // 300) if not thorough else max(2, n // 750),
+        "dup": max(10, n // 5),
         "ident": max(20, n // 4),
-        "defaults": max(2 * len(ENTRIES), n // 6),
+        "defaults": max(2 * len(ENTRIES), n // 5),
     }
 
 
-def _make(rng, gen, stream_i=0):
+def _make(rng, gen, stream_i=0, thorough=True):
     """Generate until the reference can evaluate the program (a generator that leaves its own sub-language is retried)."""
     for _ in range(50):
         try:
@@ -1293,8 +1311,11 @@ def _make(rng, gen, stream_i=0):
         if len(expect["order"]) > 6000:
             continue
         n = pb.n
-        heavy = len(expect["order"]) > 300 or len(expect["subs"]) > 300 or n >= 13
-        case = dict(meta, n=n, text=text, expect=expect, calls=make_calls(rng, n, meta["stream"], stream_i, heavy), oseed=rng.randrange(2 ** 31), npseed=rng.randrange(2 ** 31))
+        heavy = len(expect["order"]) > 300 or len(expect["subs"]) > 300 or n >= 12 or (meta["dim"] == "alias_chain" and meta["size"] >= 60) or (meta["dim"] in ("loop_depth", "block_depth", "gate_loop_depth", "macro_chain") and meta["size"] >= 100)
+        calls = make_calls(rng, n, meta["stream"], stream_i, heavy)
+        if heavy and not thorough and meta["stream"] == "scale":
+            calls = [rng.choice(calls)]  # quick tier: the expensive programs get the emulator OR the output parser
+        case = dict(meta, n=n, text=text, expect=expect, calls=calls, oseed=rng.randrange(2 ** 31), npseed=rng.randrange(2 ** 31))
         return case
     raise RuntimeError("generator never produced an evaluable program")
 
@@ -1314,8 +1335,11 @@ def gen_cases(seed, n, thorough):
                     continue
                 size = pick_size(rng, dim, t)
                 if dim == "alias_chain" and not thorough:
-                    size = min(size, 100)  # the library resolves alias chains in cubic time: 130 links cost 4 s
-                cases.append(_make(rng, lambda: gen_scale(rng, dim, size)))
+                    size = min(size, 66)  # the library resolves alias chains in cubic time: 100 links cost 2-4 s, 130 links 4-8 s
+                cases.append(_make(rng, lambda: gen_scale(rng, dim, size), thorough=thorough))
+        for dim in ("subs", "macros", "lets", "aliases"):  # 10..12 items: where "item 10" first sorts before "item 2"
+            size = rng.choice([10, 11, 11, 12])
+            cases.append(_make(rng, lambda: gen_scale(rng, dim, size), thorough=thorough))
     for i in range(b["dup"]):
         cases.append(_make(rng, lambda: gen_dup(rng)))
     for i in range(b["ident"]):
@@ -1350,7 +1374,10 @@ def _features(case, dist):
     for c in case["calls"]:
         for k, v in c["popts"].items():
             bump(f"popt:{k}={v}")
-    if "." in case["text"].split("register ")[1].split("[")[0]:
+    import re
+
+    m = re.search(r"^register ([^\[]*)\[", case["text"], re.M)
+    if m and "." in m.group(1):
         bump("dotted_register_name")
     if "__" in case["text"]:
         bump("dunder_name_in_program")
